@@ -1,0 +1,70 @@
+//go:build verif
+
+// Contracts for sticky sessions (property C29, reduced core: sequential registry semantics and
+// lock pairing; interleavings are assumed to respect the registry mutex). Comment-only.
+
+package vgirpc
+
+// ---- the registry ----
+//
+// get: a session is handed out only to the principal that opened it and only while it has not
+// expired; an expired entry is removed from the registry BEFORE its state is closed (so nobody
+// can find it again and close it a second time); a lookup by another principal leaves it alone.
+//
+//@ func (*sessionRegistry).get
+//@   property C29
+//@   at call closeSessionState assert [removedfirst] arg0 == entry.state && !has(r.entries, sid) && old(has(r.entries, sid)) && old(r.entries[sid]) == entry
+//@   ensures [local_miss_ret1] result == nil && !old(has(r.entries, sid))
+//@   ensures [local_expired_ret2] result == nil
+//@   ensures [local_otherprincipal_ret3] result == nil && has(r.entries, sid) && r.entries[sid] == old(r.entries[sid]) && old(r.entries[sid]).principalKey != principalKey
+//@   ensures [local_hit_ret4] result != nil && result == old(r.entries[sid]) && old(has(r.entries, sid)) && result.principalKey == principalKey && !timeBefore(result.expiresAt, now)
+
+// close: the entry is removed first, then its state closed once; a miss closes nothing.
+//
+//@ func (*sessionRegistry).close
+//@   property C29
+//@   at call closeSessionState assert [removedfirst] ok && arg0 == entry.state && !has(r.entries, sid) && old(r.entries[sid]) == entry
+//@   ensures [hit] result <==> old(has(r.entries, sid))
+
+// open: refused while draining (nothing registered); otherwise the new entry is registered under
+// the returned id for the opening principal.
+//
+//@ func (*sessionRegistry).open
+//@   property C29
+//@   ensures [local_draining_ret2] typeof(result3) == *ServerDrainingError && result2 == nil && (forall k [12]byte :: has(r.entries, k) == old(has(r.entries, k)))
+//@   ensures [local_registered_ret3] result3 == nil && result2 != nil && has(r.entries, result0) && r.entries[result0] == result2 && result2.principalKey == principalKey && result2.state == state
+
+// shutdown / drainExpired: every state that is closed belongs to an entry that was taken out of
+// the registry first (the registry is emptied, resp. the entry deleted, under the lock before any
+// Close runs).
+//
+//@ func (*sessionRegistry).shutdown
+//@   property C29
+//@   # (when the first Close runs the registry is already empty; a Close callback is user code and may do anything afterwards)
+//@   pathflag closing
+//@   loop 1 invariant !closing ==> (forall k [12]byte :: !has(r.entries, k))
+//@   at call closeSessionState assert [emptiedfirst] !closing ==> (forall k [12]byte :: !has(r.entries, k))
+//@   at call closeSessionState mark closing
+
+// ---- the per-session lock ----
+//
+// A request that resumes a session locks that entry's mutex and records the entry in its cleanup
+// handle (a field nobody else writes: checked package-wide); ReleaseLock unlocks exactly that
+// mutex, once.
+//
+//@ immutable stickyCleanup.entry
+//@ func (*HttpServer).installStickyOnRequestNoCtx
+//@   property C29
+//@   at call (*sync.Mutex).Lock assert [locksentry] arg0 == embedded(entry, "lock") && entry != nil
+//@   at call (*sessionRegistry).get assert [sameprincipal] arg1 == sid
+//@   ensures [local_resumed_ret6] result1 == nil && result0 != nil && result0.entry == entry
+//@   ensures [local_nolock_ret1] result0.entry == nil
+//@   ensures [local_nolock_ret2] result0.entry == nil
+//@   ensures [local_nolock_ret3] result0.entry == nil
+//@   ensures [local_nolock_ret4] result0.entry == nil
+//@   ensures [local_nolock_ret5] result0.entry == nil
+//
+//@ func (*stickyCleanup).ReleaseLock
+//@   property C29
+//@   at call (*sync.Mutex).Unlock assert [unlocksentry] arg0 == embedded(c.entry, "lock") && c.entry != nil && !c.doneMu
+//@   ensures [once] c != nil && old(c.entry) != nil ==> c.doneMu
